@@ -1037,6 +1037,24 @@ class Exec:
             s.add(extra)
         return s.check() != z3.unsat
 
+    def flush_exits(self, st: State):
+        """implicit exceptions the contract allows, raised while evaluating a statement header (loop iterable): fork their raise
+        paths now and continue under their negation"""
+        exits = self.pending_exits
+        self.pending_exits = []
+        outs, pre = [], []
+        for cond, exc, where in exits:
+            s2 = st.fork()
+            for p in pre:
+                s2.assume(p)
+            s2.assume(cond)
+            if self.feasible(s2):
+                outs.append(("raise", s2, exc))
+            pre.append(z3.Not(cond))
+        for p in pre:
+            st.assume(p)
+        return outs
+
     def exec_stmt(self, s, st: State):
         self.pending_exits = []
         try:
